@@ -145,6 +145,17 @@ func enumerateCbor(tier string, shard, n int, timeUp func() bool, emit func(p se
 				evSite, []seqx.Entry{entryLog}, []seqx.Final{send})
 		}
 	}
+	// every length 0..80 of the variable-length kinds (fixed-size scratch buffers in an encoder or decoder flip at
+	// some small length: 16, 32, 64 ...)
+	for n := 0; n <= 80; n++ {
+		bs := make([]byte, n)
+		for i := range bs {
+			bs[i] = byte(0x10 + i)
+		}
+		at([]seqx.Field{{M: "Hex", Key: "hx", Val: bs}, {M: "Bytes", Key: "by", Val: []byte(strings.Repeat("b", n))}, {M: "Str", Key: "st", Val: strings.Repeat("s", n)}, {M: "Str", Key: strings.Repeat("k", n), Val: "v"},
+			{M: "RawCBOR", Key: "rc", Val: append([]byte{0x58, byte(n)}, bs...)}, {M: "RawJSON", Key: "rj", Val: []byte("\"" + strings.Repeat("j", n) + "\"")}, {M: "Ints", Key: "is", Val: ints(n)}},
+			pickSites(sites, "event"), []seqx.Entry{entryLog}, []seqx.Final{send})
+	}
 	for _, f := range lenBoundaryFields() {
 		at([]seqx.Field{f}, pickSites(sites, "event", "context", "dict", "array", "fieldsslice"), []seqx.Entry{entryLog}, []seqx.Final{send})
 	}
@@ -825,4 +836,12 @@ func isFloat32Text(s string, f float32) bool {
 		return strconv.FormatFloat(float64(f), 'f', p, 32) == s
 	}
 	return false
+}
+
+func ints(n int) []int {
+	out := make([]int, n)
+	for i := range out {
+		out[i] = i - 3
+	}
+	return out
 }
